@@ -34,6 +34,7 @@ class DDSPathUtils(object):
                     DDSErrorCode.PATH_NOT_ABSOLUTE,
                 )
             # TODO: more checks
+            DDSPathUtils._check_segments(p)
             return DDSPath(p)
         if isinstance(p, pathlib.Path):
             if not p.is_absolute():
@@ -41,8 +42,19 @@ class DDSPathUtils(object):
                     f"Provided path {p} is not absolute. All paths must be absolute",
                     DDSErrorCode.PATH_NOT_ABSOLUTE,
                 )
+            DDSPathUtils._check_segments(p.absolute().as_posix())
             return DDSPath(p.absolute().as_posix())
         raise NotImplementedError(f"Cannot make a path from object type {type(p)}: {p}")
+
+    @staticmethod
+    def _check_segments(p: str) -> None:
+        # '.' and '..' would be resolved by the file system of the store: the object would land
+        # on the location of another path, or outside of the data directory.
+        if any(s in (".", "..") for s in p.split("/")):
+            raise DDSException(
+                f"Provided path {p} contains a '.' or '..' segment. This is not supported",
+                DDSErrorCode.STORE_PATH_NOT_SUPPORTED,
+            )
 
     @staticmethod
     def split(p: DDSPath) -> Tuple[str, Optional[DDSPath]]:
